@@ -126,6 +126,71 @@ def run_dm(hist, seed=0):
     return trace
 
 
+def run_dmconn(hist, seed=0):
+    """the whole UDPDeviceManagementConnection against a simulated server; "reconnect" = disconnect() and connect() again, the server
+    hands out another channel each time; the frames passed up are M_PropInfo.ind frames seen by the indication callback"""
+    from xknx.io.device_management_connection import UDPDeviceManagementConnection
+    from xknx.knxip import (HPAI, ConnectionStateRequest, ConnectionStateResponse, ConnectRequest, ConnectResponse, ConnectResponseData,
+                            DeviceConfigurationAck, DeviceConfigurationRequest, DisconnectRequest, DisconnectResponse, KNXIPFrame)
+    from xknx.knxip.knxip_enum import ConnectRequestType
+
+    trace = []
+    with virtual_world(seed) as loop:
+        up, acks = [], []
+        st = {"chan": 6}
+
+        async def main():
+            conn = UDPDeviceManagementConnection(GW[0], GW[1], "10.0.0.1", indication_callback=lambda c: up.append(c.data.data[0] if c.data.data else -1))
+
+            def deliver(body):
+                raw = KNXIPFrame.init_from_body(body).to_knx()
+
+                def go():
+                    tr = conn.transport.transport
+                    if tr is not None and not tr.is_closing():
+                        tr.deliver(raw, GW)
+                loop.inject(go)
+
+            def gw(tr, data, addr):
+                f, _ = KNXIPFrame.from_knx(data)
+                b = f.body
+                if isinstance(b, ConnectRequest):
+                    st["chan"] += 1
+                    deliver(ConnectResponse(communication_channel=st["chan"], data_endpoint=HPAI(*GW), crd=ConnectResponseData(request_type=ConnectRequestType.DEVICE_MGMT_CONNECTION)))
+                elif isinstance(b, DisconnectRequest):
+                    deliver(DisconnectResponse(communication_channel_id=b.communication_channel_id))
+                elif isinstance(b, ConnectionStateRequest):
+                    deliver(ConnectionStateResponse(communication_channel_id=b.communication_channel_id))
+                elif isinstance(b, DeviceConfigurationAck):
+                    acks.append([b.communication_channel_id, b.sequence_counter])
+
+            loop.on_send = gw
+            await conn.connect()
+            n = 0
+            for h in hist:
+                if h[0] == "reconnect":
+                    await conn.disconnect()
+                    await conn.connect()
+                    dm = getattr(conn, "_device_management", None)
+                    trace.append({"ev": "reset", "exp": getattr(getattr(dm, "_sequence", None), "expected", -1)})
+                    continue
+                _, choff, c = h
+                n += 1
+                ch = st["chan"] + choff
+                up.clear()
+                acks.clear()
+                raw = bytes([0xF7, 0, 0x0B, 1, 0x34, 0x10, 0x01, n & 0xFF])          # M_PropInfo.ind carrying the frame number
+                deliver(DeviceConfigurationRequest(communication_channel_id=ch, sequence_counter=c, raw_cemi=raw))
+                await asyncio.sleep(0.001)
+                dm = getattr(conn, "_device_management", None)
+                trace.append({"ev": "recv", "c": c, "id": n & 0xFF, "own": 1 if choff == 0 else 0, "ch": ch, "up": list(up), "acks": [list(a) for a in acks],
+                              "exp": getattr(getattr(dm, "_sequence", None), "expected", -1)})
+            await conn.disconnect()
+
+        loop.run_until_complete(main())
+    return trace
+
+
 def histories(ck):
     rnd = random.Random(ck.seed)
     hs = []
@@ -209,6 +274,9 @@ def run(ck):
         meta.append(("tunnel", src, h))
         traces.append(run_dm(h, ck.seed))
         meta.append(("devmgmt", src, h))
+        if i % 3 == 0 or any(x[0] == "reconnect" for x in h):      # ... and through the whole connection object (a new channel after every reconnect)
+            traces.append(run_dmconn(h, ck.seed))
+            meta.append(("devmgmt-connection", src, h))
         if any(x[0] == "reconnect" for x in h):          # route-back tunnels (NAT mode) take another path in setup_tunnel
             t = run_tunnel(h, ck.seed, route_back=True)
             for e in t:
@@ -257,7 +325,7 @@ def replay(ck, path):
 
     d = json.loads(open(path).read())["replay"]
     h = [tuple(x) for x in d["history"]]
-    t = run_dm(h, ck.seed) if d["target"] == "devmgmt" else run_tunnel(h, ck.seed, route_back=d["target"].endswith("route-back"))
+    t = run_dm(h, ck.seed) if d["target"] == "devmgmt" else run_dmconn(h, ck.seed) if d["target"] == "devmgmt-connection" else run_tunnel(h, ck.seed, route_back=d["target"].endswith("route-back"))
     if d["target"] != "devmgmt":
         for e in t:
             if e["ev"] == "recv":
